@@ -53,6 +53,9 @@ fn entry_points<T: SwiftMessageBody + 'static>(rep: &mut Report, code: u32, text
     for b in 1..=5u8 {
         guarded(rep, "extract_block", code, class, text, { let t = t.clone(); move || SwiftParser::extract_block(&t, b).map(|o| o.map(|s| s.len())) });
     }
+    // the legacy field-map API, on the text as it is and on its block 4
+    guarded(rep, "parse_block4_fields", code, class, text, { let t = t.clone(); move || swift_mt_message::parser::parse_block4_fields(&t).map(|m| m.len()) });
+    guarded(rep, "parse_block4_fields(block 4)", code, class, text, { let t = t.clone(); move || SwiftParser::extract_block(&t, 4).ok().flatten().map(|b| swift_mt_message::parser::parse_block4_fields(&b).map(|m| m.len())) });
     guarded(rep, "T::parse_from_block4", code, class, text, { let t = t.clone(); move || T::parse_from_block4(&t).map(|m| m.to_mt_string().len()) });
     if let Some(p) = plugins {
         let p1 = std::panic::AssertUnwindSafe(p);
@@ -101,6 +104,26 @@ pub fn run(o: &Opts) -> Report {
             with_mt!(code, T => value_entry_points::<T>(&mut rep, code, &j, "replay"), ());
         }
         return rep;
+    }
+    // tags of every malformed shape through the tag helpers and the tokeniser: empty, one character, a multi-byte second
+    // character, no digits, only colons
+    for tag in ["", "5", "A", ":", "2\u{e9}", "\u{e9}", "\u{e9}0", "20", "50K", "50#1", "#", "5#", "ABC", "20\u{20ac}", "1234567", " 20", "2 0"] {
+        rep.case(&format!("tag {tag}"), true);
+        let t1 = tag.to_string();
+        guarded(&mut rep, "normalize_field_tag", 0, "malformed-tag", tag, move || swift_mt_message::parser::normalize_field_tag(&t1).len());
+        let t2 = tag.to_string();
+        guarded(&mut rep, "extract_base_tag", 0, "malformed-tag", tag, move || swift_mt_message::parser::extract_base_tag(&t2).len());
+        for text in [format!(":{tag}:X"), format!(":20:REF\n:{tag}:X\n:21:Y"), format!("\n:{tag}: note"), format!(":{tag}:"), format!(":{tag}")] {
+            let t3 = text.clone();
+            guarded(&mut rep, "parse_block4_fields", 0, "malformed-tag", &text, move || swift_mt_message::parser::parse_block4_fields(&t3).map(|m| m.len()));
+            let t4 = format!("{{1:F01BANKBEBBAXXX0000000000}}{{2:I199BANKDEFFXXXXN}}{{4:\n{text}\n-}}");
+            with_mt!(199, T => entry_points::<T>(&mut rep, 199, &t4, "malformed-tag", None), ());
+        }
+    }
+    for text in ["", ":", "::", ":::", "::::", "\n:", "\n::", ":\n:", ":20:\n::\n:21:X"] {
+        let t3 = text.to_string();
+        rep.case(&format!("colons {}", text.len()), true);
+        guarded(&mut rep, "parse_block4_fields", 0, "colons-only", text, move || swift_mt_message::parser::parse_block4_fields(&t3).map(|m| m.len()));
     }
     let grammars = mgen::load_grammars();
     let pool = mgen::build_pool(if o.thorough() { 4 } else { 1 });
